@@ -535,9 +535,16 @@ def slot_restriction(repo, res):
     f = m.func("ufcx_restriction_postfix")
     key = f"{f.key}:postfix"
     res.ob(key)
-    src = ast.unparse(f.node)
-    if not re.search(r"if restriction == '\+':\s+res = '_0'\s+elif restriction == '-':\s+res = '_1'", src):
-        res.fail(key, "restriction postfixes are not '+' -> _0 and '-' -> _1: symbols of the two cells get each other's names", m.line(f.node))
+    from ..absint import Interp as _I, Raised as _R
+    from ..lnodes_model import load_classes as _lc
+
+    it_ = _I(repo, _lc(repo), primary=SYMBOLS)
+    try:
+        got = {r_: it_.call_f(f, [r_]) for r_ in ("+", "-", None)}
+    except _R as e:
+        got = {"raised": e.what}
+    if got != {"+": "_0", "-": "_1", None: ""}:
+        res.fail(key, f"restriction postfixes are {got}, not '+' -> _0, '-' -> _1, unrestricted -> '': symbols of the two cells get each other's names", m.line(f.node))
 
 
 def _find(src: str, pattern: str, what: str) -> re.Match:
